@@ -469,6 +469,13 @@ func (r *codecRunner) run(op Op) {
 			scribbleOwned(reflect.ValueOf(cl))
 			proto.Reset(cl)
 			e.CloneOk = jsonEq(before, proj.Project(proj.Impl(r.p), proj.WrapImpl)) && reflect.TypeOf(cl) == reflect.TypeOf(r.p)
+			// the clone of the type's nil message is that nil message again (as for every
+			// protobuf-go type): invalid, of the same Go type, equal to it and not to an empty message
+			nilm := r.mt.Zero().Interface()
+			if nc := proto.Clone(nilm); nc == nil || nc.ProtoReflect().IsValid() || reflect.TypeOf(nc) != reflect.TypeOf(nilm) || !proto.Equal(nc, nilm) || proto.Equal(nc, newPulsar(r.mt)) {
+				e.CloneOk = false
+				note("proto.Clone of the nil message is not the nil message")
+			}
 			e.InitOk = proto.CheckInitialized(r.p) == nil && proto.CheckInitialized(other) == nil
 			// JSON / text: pulsar output parses (reference parser, into the reference message) to the
 			// twin's value; the reference's output parses INTO pulsar (library-driven Set/Mutable/
@@ -515,6 +522,37 @@ func (r *codecRunner) run(op Op) {
 				if (refUErr == nil) != (pUErr == nil) || (refUErr == nil && !reflect.DeepEqual(a, b)) {
 					e.JSONOk = false
 					note("protojson(EmitUnpopulated) differs from the reference: %s vs %s (%v / %v)", trunc(string(pU), 150), trunc(string(refU), 150), pUErr, refUErr)
+				}
+				// ... and that document, which spells out every default value (empty strings and
+				// bytes, zero numbers, empty lists), parsed back: the same fields are populated and
+				// the same document is printed again
+				if refUErr == nil {
+					into, intoD := newPulsar(r.mt), dynamicpb.NewMessage(r.md)
+					e1, e2 := protojson.Unmarshal(refU, into), protojson.Unmarshal(refU, intoD)
+					if (e1 == nil) != (e2 == nil) {
+						e.JSONOk = false
+						note("protojson.Unmarshal(document with explicit defaults): pulsar err=%v reference err=%v", e1, e2)
+					} else if e1 == nil {
+						set := func(m protoreflect.Message) string {
+							var ns []int
+							m.Range(func(fd protoreflect.FieldDescriptor, _ protoreflect.Value) bool { ns = append(ns, int(fd.Number())); return true })
+							sort.Ints(ns)
+							return fmt.Sprint(ns)
+						}
+						if sp, sd := set(into.ProtoReflect()), set(intoD.ProtoReflect()); sp != sd {
+							e.JSONOk = false
+							note("after parsing a document with explicit defaults Range visits %s, reference %s", sp, sd)
+						}
+						p2, _ := o.Marshal(into)
+						r2, _ := o.Marshal(intoD)
+						var a2, b2 any
+						json.Unmarshal(r2, &a2)
+						json.Unmarshal(p2, &b2)
+						if !reflect.DeepEqual(a2, b2) {
+							e.JSONOk = false
+							note("document with explicit defaults, parsed and printed again, differs from the reference: %s vs %s", trunc(string(p2), 150), trunc(string(r2), 150))
+						}
+					}
 				}
 			}
 			// --- text format, same scheme (documents compared by parsing both with the reference)
